@@ -484,3 +484,26 @@ func specAvailRefS(a *asset, cfg *ResponseConfig, k int, w uint64) float64 {
 //@   use      lemmaWrapDurIsRepDur(a, a.refRep)
 //@   ensures  specAvailRefS(a, cfg, k, w) == specAvailSW(a, a.refRep, cfg, k, int(w))
 func lemmaRefAvailAgrees(a *asset, cfg *ResponseConfig, k int, w uint64) {}
+
+// ---------------------------------------------------------------------------
+// C12: generated time subtitles: cue intervals
+
+// calcCueItvls (cue durations of at most one second): one cue per UTC second that intersects
+// [utcStart, utcStart+segDur), in order; cue k shows second utcStart/1000 + k, starts at that
+// second or at the segment start, and ends cueDur after the second, clipped to the segment end (and never before its start)
+// (times are returned on the media timeline: shifted by segStart-utcStart).
+//@ func calcCueItvls
+//@   requires 0 < cueDur && cueDur <= 1000 && 0 < segDur && segDur <= 3600000 && 0 <= utcStart && utcStart <= maxNowMS && 0 <= segStart && segStart <= maxNowMS
+//@   ensures  count: len(result) == (utcStart+segDur+999)/1000 - utcStart/1000
+//@   ensures  second: forall k in [0, len(result)) :: result[k].utcS == utcStart/1000 + k
+//@   ensures  start: forall k in [0, len(result)) :: result[k].startMS == max((utcStart/1000+k)*1000, utcStart) + (segStart - utcStart)
+//@   ensures  end: forall k in [0, len(result)) :: result[k].endMS == max(min((utcStart/1000+k)*1000+cueDur, utcStart+segDur), max((utcStart/1000+k)*1000, utcStart)) + (segStart - utcStart)
+//@   ensures  inside: forall k in [0, len(result)) :: segStart <= result[k].startMS && result[k].endMS <= segStart+segDur
+//@   ensures  noOverlap: forall k in [0, len(result)-1) :: result[k].endMS <= result[k+1].startMS
+//@   ensures  nonNegative: forall k in [0, len(result)) :: result[k].startMS <= result[k].endMS
+//@   allocates
+//@   loop 1 invariant cueFullS == 1 && cueFullMS == 1000 && diff == segStart - utcStart && utcEndMS == utcStart + segDur
+//@   loop 1 invariant utcS >= utcStart/1000 && len(itvls) == utcS - utcStart/1000 && utcS*1000 <= utcEndMS + 999 && (utcS > utcStart/1000 ==> (utcS-1)*1000 < utcEndMS)
+//@   loop 1 invariant fresh(itvls)
+//@   loop 1 invariant forall k in [0, len(itvls)) :: itvls[k].utcS == utcStart/1000 + k && itvls[k].startMS == max((utcStart/1000+k)*1000, utcStart) + diff && itvls[k].endMS == max(min((utcStart/1000+k)*1000+cueDur, utcEndMS), max((utcStart/1000+k)*1000, utcStart)) + diff
+//@   loop 1 decreases utcEndMS/1000 + 1 - utcS
